@@ -416,7 +416,61 @@ def check_hints(run, repo, eff, bind):
                           'hint instruction %s has an effect outside {event register, wait flags, hyp trap, hook}: %s `%s`'
                           % (name, e.kind, e.text()))
         run.instance('C12-H', name, ok=ok, sample={'class': name})
+        if name in ('Wfe', 'Wfi'):
+            check_wait_table(run, ci, tr, name)
     run.floor('hint opcodes', len(classes), 5)
+
+
+def check_wait_table(run, ci, tr, name):
+    """WFE: if EventRegistered() then ClearEventRegister() else (trap to Hyp under HCR.TWE | WaitForEvent());
+    WFI: trap under HCR.TWI | WaitForInterrupt().  Decision table over the three outcomes, from guards and arm exclusivity."""
+    from ..flow import exclusive
+    ok = True
+    fn = name + '.execute'
+
+    def bad(construct, msg):
+        nonlocal ok
+        ok = False
+        run.violation('C12-H', ci.relpath, fn, construct, msg)
+    calls = {m: [e for e in tr.events if e.kind == 'ProcCall' and e.d['method'] == m] for m in
+             ('clear_event_register', 'wait_for_event', 'wait_for_interrupt', 'write_hsr')}
+    traps = [e for e in tr.events if e.kind == 'TakeException']
+    is_ev = lambda t: t[0] == 'pcall' and t[1] == 'event_registered'
+    trapbit = 'twe' if name == 'Wfe' else 'twi'
+    wait = calls['wait_for_event' if name == 'Wfe' else 'wait_for_interrupt']
+    other_wait = calls['wait_for_interrupt' if name == 'Wfe' else 'wait_for_event']
+    if len(wait) != 1 or other_wait:
+        bad('wait call', '%s must enter exactly its own wait state on the non-trapping path' % name.upper())
+    if len(traps) != 1 or len(calls['write_hsr']) != 1:
+        bad('hyp trap', '%s has exactly one Hyp-trap path (write_hsr + take_hyp_trap_exception)' % name.upper())
+    else:
+        a = calls['write_hsr'][0].d['args']
+        if a != [('const', 1), ('const', 1 if name == 'Wfe' else 0)]:
+            bad('hyp trap syndrome', 'HSR must be written with EC 0b000001 and ISS bit 0 = %d for %s' % (1 if name == 'Wfe' else 0, name.upper()))
+
+        def is_trap_cond(t):
+            if t[0] != 'and':
+                return False
+            parts = [repr(x) for x in t[1]]
+            need = ["('call', 'have_virt_ext', ())", "('not', ('rcall', 'is_secure', ()))", "('not', ('rcall', 'current_mode_is_hyp', ()))"]
+            return all(n in parts for n in need) and any('hcr' in p_ and trapbit in p_ for p_ in parts) and len(parts) == 4
+        if not guard_has(traps[0].guards, is_trap_cond, True):
+            bad('hyp trap condition', 'the trap is taken exactly under HaveVirtExt() && !IsSecure() && !CurrentModeIsHyp() && HCR.%s' % trapbit.upper())
+        for w in wait:
+            if not guard_has(w.guards, is_trap_cond, False):
+                bad('wait vs trap', 'the wait state is entered only when the trap condition is false')
+    if name == 'Wfe':
+        clr = calls['clear_event_register']
+        if len(clr) != 1 or not guard_has(clr[0].guards, is_ev, True):
+            bad('event clear', 'WFE clears the event register exactly when an event is registered')
+        for e in wait + traps + calls['write_hsr']:
+            if not guard_has(e.guards, is_ev, False):
+                bad('wait with a pending event', 'WFE waits / traps only when no event is registered')
+            for c in clr:
+                if not exclusive(e, c):
+                    bad('clear and wait on one path', 'WFE with a pending event consumes it and must NOT also wait: the clear and the wait '
+                        '(or trap) are alternatives, here both can happen in one execution')
+    run.instance('C12-H', name + ' decision table', obligations=5, ok=ok, sample={'class': name})
 
 
 def check_coproc(run, repo, eff):
